@@ -80,6 +80,9 @@ def units(tier):
     # (incl. bounds of the initial parameters) drops the results (contract shared with C03)
     from . import c03
     us.append(Unit("FitProperties.__setitem__", c03.unit_setitem, prop="C04"))
+    # "... instead of stale numbers" also for the plateau-search range type (contract shared with C05)
+    from . import scan_units as SU
+    us.append(Unit("fit.plateau_search", SU.unit_fit_plateau, prop="C04"))
     if tier == "thorough" and not os.environ.get("VF_NO_CANARIES") and str(REPO) == "/repo":
         us.append(Unit("selftest.canaries", unit_canaries))
     return us
